@@ -356,10 +356,11 @@ namespace smt
         else if (const auto at_expr = exprs.find(s_expr); at_expr != exprs.cend()) // the expression already exists..
             return at_expr->second;
         else
-        { // we need to create a new variable..
-            const auto ctr = new_at_most_one(ls);
+        { // we need to create a new variable (the at-most-one literal cannot be reused, since it is shared with whoever asks for the at-most-one of the same literals)..
+            const auto amo = new_at_most_one(ls);
+            const auto ctr = lit(new_var());
             ls.push_back(!ctr);
-            if (!new_clause(std::move(ls)))
+            if (!new_clause({!ctr, amo}) || !new_clause(std::move(ls)))
                 return FALSE_lit;
             exprs.emplace(s_expr, ctr);
             return ctr;
